@@ -36,15 +36,15 @@ RULES = {
     "C29": [("sa.rules.b5", "r_C29"), ("sa.rules.c29", "r_export2"), ("sa.rules.c29", "r_C29e"), ("sa.rules.c29", "r_C31d_C29f")],
     "C30": [("sa.rules.c13", "r_C13eval"), ("sa.rules.b3", "r_C28b_C33b_C30bc"), ("sa.rules.c29", "r_cli2"), ("sa.rules.c26", "r_C26eval"), ("sa.rules.c26", "r_C26state"), ("sa.rules.b1", "r_C33a")],
     "C31": [("sa.rules.b4", "r_ledger"), ("sa.rules.c14", "r_ledger2"), ("sa.rules.c29", "r_export2"), ("sa.rules.c29", "r_C31d_C29f")],
-    "C32": [("sa.rules.c32", "r_C32"), ("sa.rules.c32", "r_C32c"), ("sa.rules.c32", "r_C32de"), ("sa.rules.c01e", "r_C01visitors"), ("sa.rules.cpn", "r_processnode"), ("sa.rules.cdrv", "r_driver")],
-    "C33": [("sa.rules.b1", "r_C33a"), ("sa.rules.b7", "r_origin"), ("sa.rules.c13", "r_C13eval"), ("sa.rules.b3", "r_C28b_C33b_C30bc"), ("sa.rules.c29", "r_C33c_C34g"), ("sa.rules.cmisc", "r_C06bcd"), ("sa.rules.cpn", "r_processnode"), ("sa.rules.cdrv", "r_driver"), ("sa.rules.cres", "r_resolver"), ("sa.rules.c16", "r_cachekeys")],
+    "C32": [("sa.rules.c32", "r_C32"), ("sa.rules.c32", "r_C32c"), ("sa.rules.c32", "r_C32de"), ("sa.rules.c01e", "r_C01visitors"), ("sa.rules.cpn", "r_processnode"), ("sa.rules.cdrv", "r_driver"), ("sa.rules.c12", "r_C12b")],
+    "C33": [("sa.rules.b1", "r_C33a"), ("sa.rules.b7", "r_origin"), ("sa.rules.c13", "r_C13eval"), ("sa.rules.b3", "r_C28b_C33b_C30bc"), ("sa.rules.c29", "r_C33c_C34g"), ("sa.rules.cmisc", "r_C06bcd"), ("sa.rules.cpn", "r_processnode"), ("sa.rules.cdrv", "r_driver"), ("sa.rules.cres", "r_resolver"), ("sa.rules.c16", "r_cachekeys"), ("sa.rules.c25", "r_C28f")],
     "C34": [("sa.rules.b3", "r_C08_C34"), ("sa.rules.cmisc", "r_C13d_C34f_C09d"), ("sa.rules.c29", "r_C33c_C34g"), ("sa.rules.cmisc", "r_C06bcd"), ("sa.rules.c25", "r_who_writes"), ("sa.rules.c05", "r_C05cde"), ("sa.rules.cres", "r_resolver"), ("sa.rules.cpn", "r_processnode"), ("sa.rules.cdrv", "r_driver"), ("sa.rules.c14", "r_C14inst")],
 }
 
 # findings of one property that are *also* reported under another (same defect, two properties)
 ALSO = {
     "C21": {"C01": ("C01.a",)},
-    "C32": {"C18": ("C18.k",)},
+    "C32": {"C18": ("C18.k",), "C12": ("C12.e",)},
     "C23": {"C03": ("C03.m",)},      # a valid grammar whose rule kinds cannot be determined ends in a non-textX error
     "C03": {"C01": ("C01.h",)},
     "C18": {"C15": ("C15.k", "C15.m"), "C17": ("C17.n",)},
@@ -63,7 +63,7 @@ ALSO = {
     # the reference spans of _pos_crossref_list are the (position, position_end) queued with each ObjCrossRef
     "C34": {"C08": ("C08.e"), "C06": ("C06.b", "C06.c", "C06.f", "C06.g"), "C05": ("C05.f",), "C14": ("C14.p",)},    # def_file_name / filename of a location: the model found by get_model
     # a user object's own position must replace the class-level one (C06.b) before a processor error is located with it
-    "C33": {"C06": ("C06.b", "C06.a", "C06.f", "C06.g"), "C13": ("C13.h",), "C01": ("C01.k",), "C28": ("C28.h", "C28.i")},
+    "C33": {"C06": ("C06.b", "C06.a", "C06.f", "C06.g"), "C13": ("C13.h",), "C01": ("C01.k",), "C28": ("C28.h", "C28.i", "C28.f")},
     # the parent link of an object of a user class is a collected attribute: it is lost when the instrumentation ends while a load is still building objects
     "C05": {"C14": ("C14.j", "C14.m", "C14.p"), "C16": ("C16.a",)},
     # a reference list / an attribute a user class shadows at class level is shared by all objects (C08: order of one object's references; C14: __init__ arguments)
